@@ -85,6 +85,11 @@ func Int16() int16     { return int16(nextU("i16")) }
 func Int8() int8       { return int8(nextU("i8")) }
 func Int() int         { return int(nextU("int")) }
 func Uint64() uint64   { return nextU("u64") }
+
+// IntRange returns a fresh symbolic int in [lo,hi] (0 <= lo <= hi). Unlike Int()+Assume the
+// range is part of the variable: comparisons and divisions by constants over it are
+// simplified statically, often without any solver query.
+func IntRange(lo, hi int) int { return int(nextU("int")) }
 func Uint32() uint32   { return uint32(nextU("u32")) }
 func Uint16() uint16   { return uint16(nextU("u16")) }
 func Uint8() uint8     { return uint8(nextU("u8")) }
